@@ -16,7 +16,8 @@ import os, sys, json, time, subprocess, hashlib, random, fcntl, re, math, traceb
 
 VERIF = os.path.dirname(os.path.dirname(os.path.abspath(__file__)))
 REPO = os.environ.get("NPS_REPO", "/repo")
-LEAN_DIR = os.path.join(VERIF, "lean")
+LEAN_DIR = os.environ.get("VERIF_LEAN_DIR") or os.path.join(VERIF, "lean")      # (evaluation tooling may point this at a copy)
+OUT_DIR = os.environ.get("VERIF_OUT_DIR") or VERIF                                  # evidence/ and replays/ live here
 DRIVER = os.path.join(LEAN_DIR, ".lake", "build", "bin", "driver")
 ALLOWED_AXIOMS = {"propext", "Classical.choice", "Quot.sound"}
 FORBIDDEN = re.compile(r"\b(sorry|admit|native_decide|bv_decide|implemented_by|unsafe)\b|^\s*axiom\s|maxHeartbeats\s+0")
@@ -341,7 +342,7 @@ def stable_hash(obj):
 
 
 def write_replay(prop_id, payload):
-    d = os.path.join(VERIF, "replays")
+    d = os.path.join(OUT_DIR, "replays")
     os.makedirs(d, exist_ok=True)
     path = os.path.join(d, f"{prop_id}-{stable_hash(payload)}.json")
     with open(path, "w") as f:
@@ -350,7 +351,7 @@ def write_replay(prop_id, payload):
 
 
 def write_evidence(prop_id, ev):
-    d = os.path.join(VERIF, "evidence")
+    d = os.path.join(OUT_DIR, "evidence")
     os.makedirs(d, exist_ok=True)
     path = os.path.join(d, f"{prop_id}.json")
     tmp = path + ".tmp"
